@@ -3,9 +3,9 @@ package main
 import (
 	"fmt"
 	"go/ast"
+	"go/token"
 	"go/types"
 	"os"
-	"strings"
 
 	"gnoverif/engine"
 )
@@ -16,27 +16,46 @@ func main() {
 		panic(err)
 	}
 	for _, f := range p.Funcs() {
-		engine.InspectBody(f, func(n ast.Node) {
-			switch x := n.(type) {
-			case *ast.RangeStmt:
-				t := f.Info().TypeOf(x.X)
-				if t == nil {
-					return
+		info := f.Info()
+		isPkgVar := func(e ast.Expr) *types.Var {
+			for {
+				switch x := ast.Unparen(e).(type) {
+				case *ast.IndexExpr:
+					e = x.X
+					continue
+				case *ast.SelectorExpr:
+					if v, ok := info.Uses[x.Sel].(*types.Var); ok && !v.IsField() && v.Parent() == v.Pkg().Scope() {
+						return v
+					}
+					e = x.X
+					continue
+				case *ast.StarExpr:
+					e = x.X
+					continue
+				case *ast.Ident:
+					if v, ok := info.ObjectOf(x).(*types.Var); ok && !v.IsField() && v.Pkg() != nil && v.Parent() == v.Pkg().Scope() {
+						return v
+					}
 				}
-				if _, ok := t.Underlying().(*types.Map); ok {
-					fmt.Printf("MAPRANGE %s | %s | %s\n", p.Pos(x.Pos()), f.Name, engine.ExprString(x.X))
-				}
-			case *ast.GoStmt:
-				fmt.Printf("GO %s | %s\n", p.Pos(x.Pos()), f.Name)
-			case *ast.SelectStmt:
-				fmt.Printf("SELECT %s | %s\n", p.Pos(x.Pos()), f.Name)
-			}
-		})
-		for _, s := range f.Calls() {
-			n := s.CalleeName()
-			if strings.HasPrefix(n, "time.Now") || strings.HasPrefix(n, "time.Since") || strings.HasPrefix(n, "math/rand") || strings.HasPrefix(n, "crypto/rand") || strings.HasPrefix(n, "os.Getenv") || strings.HasPrefix(n, "os.LookupEnv") || strings.HasPrefix(n, "runtime.Num") || strings.HasPrefix(n, "os.Hostname") || strings.HasPrefix(n, "os.Getpid") {
-				fmt.Printf("SRC %s | %s | %s\n", p.Pos(s.Pos()), f.Name, n)
+				return nil
 			}
 		}
+		engine.InspectBody(f, func(n ast.Node) {
+			switch x := n.(type) {
+			case *ast.AssignStmt:
+				if x.Tok == token.DEFINE {
+					return
+				}
+				for _, l := range x.Lhs {
+					if v := isPkgVar(l); v != nil {
+						fmt.Printf("GLOBALWRITE %s | %s | %s.%s\n", p.Pos(x.Pos()), f.Root().Name, engine.Rel(v.Pkg().Path()), v.Name())
+					}
+				}
+			case *ast.IncDecStmt:
+				if v := isPkgVar(x.X); v != nil {
+					fmt.Printf("GLOBALWRITE %s | %s | %s.%s\n", p.Pos(x.Pos()), f.Root().Name, engine.Rel(v.Pkg().Path()), v.Name())
+				}
+			}
+		})
 	}
 }
